@@ -961,6 +961,13 @@ func (d *dealer) syncCall(caller *wamp.Session, msg *wamp.Call) {
 		// timeout too large for a time.Duration is the longest possible one.
 		const maxTimeout = int64(math.MaxInt64 / time.Millisecond)
 		timeout = min(timeout, maxTimeout)
+		// A later message of a progressive call invocation restarts the call's
+		// timeout. The timer of the earlier message must not stay behind: it
+		// would end this call early, or a later call that reuses the request
+		// ID, and live on after the call has completed.
+		if invk.timerCancel != nil {
+			invk.timerCancel()
+		}
 		var timerCtx context.Context
 		timerCtx, invk.timerCancel = context.WithTimeout(context.Background(),
 			time.Duration(timeout)*time.Millisecond)
